@@ -41,7 +41,7 @@ def gen_cfg(rng, evs, threads):
     else:
         classes = [rng.choice([4, 0x25, 1])]
         subs = [0x0301]
-    tid = rng.choice([None, None, threads[0][0], 11, 99999])
+    tid = rng.choice([None, None, threads[0][0], 11, 99999] + sorted({e[0] for e in evs}))
     return {'filter_class': classes, 'filter_subclass': subs, 'filter_tid': tid}
 
 
@@ -53,42 +53,70 @@ def run(ctx, model_ok):
     reqs, info = [], []
     for i in range(n):
         threads, evs = sg.gen(rng, n_ops=rng.choice([6, 12, 20]))
-        f = sg.v2(threads, evs).hex()
         cfg = gen_cfg(rng, evs, threads)
-        proc = rng.choice([str(threads[0][1]), threads[0][2].decode() or 'Safari', 'Safari', 'xpcproxy'])
+        directed = None
+        if i % 5 in (0, 1):
+            # directed: thread B's process is declared ONLY by a record of ANOTHER thread A (sampler thread data of the
+            # sampler class, or a new-thread record of the trace class); B then makes syscalls; the request filters on B's
+            # process together with a class filter and / or B's thread id
+            c = sg.c
+            a_tid, b_tid, pid = 0x501, 0x502, rng.choice([56, 77])
+            decl = ([[a_tid, c['PERF_THD_Data'], 0, [pid, b_tid, 0x5000, 1]]] if i % 5 == 0 else
+                    [[a_tid, c['TRACE_DATA_NEWTHREAD'], 0, [b_tid, pid, 0, 0]]])
+            call = [[b_tid, c['BSC_read'], 1, [3, 0x1000, 16, 0]], [b_tid, c['BSC_read'], 2, [0, 16, 0, 0]]]
+            k = rng.randrange(len(evs) + 1)
+            evs = evs[:k] + decl + call + evs[k:]
+            directed = str(pid)
+            cfg = {'filter_class': rng.choice([[4], [], [4, 3]]), 'filter_subclass': rng.choice([[], [0x040c]]),
+                   'filter_tid': rng.choice([None, b_tid])}
+        f = sg.v2(threads, evs).hex()
+        proc = directed or rng.choice([str(threads[0][1]), threads[0][2].decode() or 'Safari', 'Safari', 'xpcproxy', '55', '56', '7', 'launchd'])
         base = {'color': False}
-        # request 0: no class filters (same tid filter); request 1: filtered, then REPEATED on the same object mixed with
-        # callstacks / kevents requests; request 2: process filter; request 3: unfiltered formatted lines (for the oracle)
-        reqs.append({'file': f, 'cfg': dict(base, filter_tid=cfg['filter_tid']), 'calls': ['traces', 'formatted_traces']})
+        # request 0: NO filter at all, with the formatted lines (the reference run: its traces, and the process column of
+        # each); request 1: class / subclass / tid filters, REPEATED on the same object mixed with callstacks / kevents
+        # requests; request 2: process filter alone; request 3: class list given as a tuple; request 4: ALL filters at once
+        reqs.append({'file': f, 'cfg': dict(base), 'calls': ['traces', 'formatted_traces']})
         reqs.append({'file': f, 'cfg': dict(base, **cfg), 'calls': ['traces', 'callstacks', 'traces', 'kevents', 'traces']})
         reqs.append({'file': f, 'cfg': dict(base, filter_process=proc, show_tid=True), 'calls': ['traces', 'traces']})
         reqs.append({'file': f, 'cfg': {'color': False, 'filter_class_tuple': cfg['filter_class'],
                                         'filter_subclass': cfg['filter_subclass']}, 'calls': ['traces']})
+        reqs.append({'file': f, 'cfg': dict(base, filter_process=proc, **cfg), 'calls': ['traces', 'traces']})
         info.append((threads, evs, cfg, proc))
     out = vlib.run_impl('run_api.py', {'cases': reqs}, timeout=3000)['results']
     ctx.evaluations = len(reqs)
     ctx.rule = ('semantic streams (syscalls with nested lookups, exec / new-thread name pairs, terminate-pid, sampler thread data) x '
                 'filter configurations (none, [BSD], one BSD subclass, [TRACE], [FSYSTEM, BSD], BSD subclass + trace-string '
-                'subclass, other class + lookup subclass; tid none/present/absent; process by pid / name) x request sequences '
+                'subclass, other class + lookup subclass; tid none/present/absent/undeclared-in-the-map; process by pid / name incl. pids declared only by new-thread or sampler records of OTHER threads; all filters combined) x request sequences '
                 'traces, callstacks, traces, kevents, traces on ONE object, and the class list given as a tuple; non-trivial = '
                 'distinct (stream, configuration) whose filtered output is a non-empty proper subsequence of the unfiltered one')
     cases = []
     for i, (threads, evs, cfg, proc) in enumerate(info):
-        r0, r1, r2, r3 = out[4 * i:4 * i + 4]
+        r0, r1, r2, r3, r4 = out[5 * i:5 * i + 5]
         unf = r0[0]['items']
         flt = r1[0]['items']
         inp = {'threads': [[t, p, nm.decode()] for t, p, nm in threads], 'events': evs, 'cfg': cfg}
-        if any(c['err'] for c in r0 + r1 + r2 + r3):
-            ctx.failing.append({'input': inp, 'expected': 'no exception', 'actual': [c['err'] for c in r0 + r1 + r2 + r3],
+        if any(c['err'] for c in r0 + r1 + r2 + r3 + r4):
+            ctx.failing.append({'input': inp, 'expected': 'no exception', 'actual': [c['err'] for c in r0 + r1 + r2 + r3 + r4],
                                 'why': 'a request raised'})
             continue
 
         def wanted(it):
             eid = it[6]
+            if cfg['filter_tid'] is not None and it[5] != cfg['filter_tid']:
+                return False
             if not cfg['filter_class'] and not cfg['filter_subclass']:
                 return True
             return (eid >> 24) in cfg['filter_class'] or (eid >> 16) in cfg['filter_subclass']
+
+        def proc_matches(it, ln):
+            col = ln[len(str(it[1])) + 1:][:34].rstrip()
+            name, _, pid = col.rpartition('(')
+            pid = pid.rstrip(')')
+            if col.startswith('Error: tid'):
+                name, pid = '', '-1'
+            return proc == pid or proc == name
         exp = [it for it in unf if wanted(it)]
+        exp_all = [it for it, ln in zip(unf, r0[1]['items']) if wanted(it) and proc_matches(it, ln)]
         key = lambda it: (it[1], it[0], it[4])          # head record, class, text
         non_bsd_sub = any(s >> 8 != 4 for s in cfg['filter_subclass'])
         if [key(it) for it in flt] != [key(it) for it in exp] and not (non_bsd_sub and [it[1] for it in flt] == [it[1] for it in exp]):
@@ -112,7 +140,7 @@ def run(ctx, model_ok):
                                     'why': "the caller's filter settings were changed by a request"})
                 break
         if r3[0]['cfg_after']['filter_class_type'] != 'tuple' or [key(it) for it in r3[0]['items']] != \
-                [key(it) for it in out[4 * i + 1][0]['items'] if cfg['filter_tid'] is None] and cfg['filter_tid'] is None:
+                [key(it) for it in out[5 * i + 1][0]['items'] if cfg['filter_tid'] is None] and cfg['filter_tid'] is None:
             ctx.failing.append({'input': inp, 'expected': 'a tuple of classes works like a list and stays a tuple',
                                 'actual': r3[0]['cfg_after'], 'why': 'class filter given as a tuple is not honoured / was replaced'})
         # process filter = post-filter: the unfiltered listing (no tid filter) restricted by its own process column
@@ -126,23 +154,24 @@ def run(ctx, model_ok):
         ft = 'None' if cfg['filter_tid'] is None else f'(Some {cN(cfg["filter_tid"])})'
         cases.append(f'({cl}, ({ft}, {clist([cN(x) for x in cfg["filter_class"]])}, {clist([cN(x) for x in cfg["filter_subclass"]])}), '
                      f'{ins}, {obs})')
-        # process filter oracle
-        lines = r0[1]['items'] if cfg['filter_tid'] is None else None
-        if lines is not None:
-            keep = []
-            for it, ln in zip(unf, lines):
-                col = ln[len(str(it[1])) + 1:][:34].rstrip()
-                name, _, pid = col.rpartition('(')
-                pid = pid.rstrip(')')
-                if col.startswith('Error: tid'):
-                    name, pid = '', '-1'
-                if proc == pid or proc == name:
-                    keep.append(it)
-            got = r2[0]['items']
-            if [key(it) for it in got] != [key(it) for it in keep] or r2[1]['items'] != got:
-                ctx.failing.append({'input': dict(inp, filter_process=proc), 'expected': [[it[1], it[4]] for it in keep],
+        # process filter oracle: the traces of the unfiltered run whose process column matches
+        keep = [it for it, ln in zip(unf, r0[1]['items']) if proc_matches(it, ln)]
+        got = r2[0]['items']
+        if [key(it) for it in got] != [key(it) for it in keep] or r2[1]['items'] != got:
+            ctx.failing.append({'input': dict(inp, filter_process=proc), 'expected': [[it[1], it[4]] for it in keep],
+                                'actual': [[it[1], it[4]] for it in got],
+                                'why': 'the process filter does not select exactly the traces whose process column matches'})
+        # all filters at once: exactly the traces of the unfiltered run that satisfy every one of them
+        got = r4[0]['items']
+        if [key(it) for it in got] != [key(it) for it in exp_all] or r4[1]['items'] != got:
+            if not (non_bsd_sub and [it[1] for it in got] == [it[1] for it in exp_all]):
+                ctx.failing.append({'input': dict(inp, filter_process=proc), 'expected': [[it[1], it[4]] for it in exp_all],
                                     'actual': [[it[1], it[4]] for it in got],
-                                    'why': 'the process filter does not select exactly the traces whose process column matches'})
+                                    'why': 'thread + process + class filters together do not yield exactly the traces of the '
+                                           'unfiltered run that satisfy all of them (process judged by the process column of the '
+                                           'unfiltered listing)'})
+        if exp_all and len(exp_all) < len(exp):
+            ctx.nontrivial.add(repr((evs, cfg, proc)))
     ctx.samples = [{'cfg': info[0][2], 'events': info[0][1][:6], 'unfiltered': [[it[1], it[4]] for it in out[0][0]['items']][:6],
                     'filtered': [[it[1], it[4]] for it in out[1][0]['items']][:6]}]
     if model_ok:
